@@ -43,7 +43,13 @@ def run(ctx):
         "published one after the other; as soon as a Publish has not returned after 300 ms a new registration (C), the removal of another "
         "subscriber (D) and delivery of that VAA to a reading subscriber (B) are watched too, all against one deadline (quick 4 s, thorough "
         "12 s; on an implementation with isolation everything completes in microseconds); the number of publishes that went through before "
-        "one blocked ties the model's channel capacity (spycap). "
+        "one blocked ties the model's channel capacity (spycap). slow-subscriber scenarios (one per two delivery sequences): A's first Send "
+        "waits on a gate while 2-6 further VAAs of the SAME encoded length (distinct payloads, partly from an emitter A does not filter for) "
+        "are published - one of them sitting in A's channel - then the gate opens; the exact byte strings A and B received are compared "
+        "with the published ones (clauses delivered-bytes-altered / non-matching-subscriber-served / matching-subscriber-not-served). "
+        "departing-subscriber scenarios (2): a subscriber that has read everything disconnects; the fake stream holds its handler at the "
+        "Context() call after it woke on ctx.Done(), one matching VAA is published in that window, then the handler is let go "
+        "(clause departing-subscriber-blocks-publish: nobody is stalled there). "
         "distinct_nontrivial = lines on which the implementation agreed with the model and satisfied the Spec")
     ctx.cov["trusted_base"] += [
         "harness/spy/spy_verif_test.go (fake grpc.ServerStream, sentinel barrier, deadlines) and Whv/Driver/Spy.lean (comparison, Spec evaluation)",
